@@ -76,9 +76,17 @@ static void run_peakloc(Json& js, vh::Rng& rng, long budget) {
         }
         const int idx = (int)rng.range(0, n - 1);
         const bool cyclic = rng.coin();
-        // make idx a strict local maximum so that the vertex lies within half a sample
         const int l = (idx - 1 + n) % n, r = (idx + 1) % n;
-        x[idx] = std::max(x[l], x[r]) + rng.range(1, 50);
+        if (t % 2 == 0) {
+            // idx a strict local maximum: the vertex lies within half a sample
+            x[idx] = std::max(x[l], x[r]) + rng.range(1, 50);
+        } else {
+            // any index: the parabola through the three samples has its vertex wherever it has it (small values keep the
+            // cross products inside TLC's integers; the curvature is kept away from zero)
+            do {
+                x[l] = rng.range(-10, 10), x[idx] = rng.range(-10, 10), x[r] = rng.range(-10, 10);
+            } while (std::labs(x[l] - 2 * x[idx] + x[r]) < 2 || l == r || l == idx);
+        }
         arr_real a(n);
         for (int i = 0; i < n; ++i) {
             a[i] = (double)x[i];
